@@ -3,7 +3,7 @@ import re
 
 from ..engine import CALLS, CTORS, atomic_ops, atomic_field_of, callee_fq, path, unwrap
 from ..flow import TooManyPaths
-from ..rcu import RCU, NODE, ZLN, all_paths, insertion_body
+from ..rcu import RCU, NODE, ZLN, all_paths, insertion_body, forwards_to_sibling
 from .. import common
 from . import c05
 
@@ -45,6 +45,9 @@ def wmutex(ctx):
         if not fs:
             ctx.broken("rcu_list::%s not instantiated" % nm)
         for f in fs:
+            if forwards_to_sibling(fb, f) is not None:
+                ctx.ob(rid, True, f.where, "%s forwards to %s, which takes the mutex" % (nm, forwards_to_sibling(fb, f).name), fn=f.label, inst=f.qname)
+                continue
             la = eng.locks(f)
             acq = [e for e in la.acquire_events if e[2].mutex == "this.m_write_mutex"]
             ok = len(acq) == 1 and acq[0][3] is True and acq[0][2].mode == "X"
@@ -74,6 +77,8 @@ def reentrancy_rule(ctx, rid):
     ctx.rule(rid, "insertions read m_head / m_tail only after the new element was constructed", floor=8)
     for nm in ("push_front", "emplace_front", "push_back", "emplace_back"):
         for f in ctx.fb.functions(rec=RCU, name=nm):
+            if forwards_to_sibling(ctx.fb, f) is not None:
+                continue
             mk = [st for st in f.stmts.values() if st["k"] == "CallExpr" and callee_fq(st) == "gmlc::libguarded::detail::allocate_unique"]
             if len(mk) != 1 or f.pos_of(mk[0]) is None:
                 ctx.unknown("%s: %s: cannot find the allocate_unique call of %s" % (rid, f.where, nm))
@@ -93,6 +98,9 @@ def publish(ctx, rid="C12.publish", reentrancy=True):
     fb = ctx.fb
     for nm in ("push_front", "emplace_front", "push_back", "emplace_back"):
         for f0 in fb.functions(rec=RCU, name=nm):
+            if forwards_to_sibling(fb, f0) is not None:
+                ctx.ob(rid, True, f0.where, "%s forwards to %s" % (nm, forwards_to_sibling(fb, f0).name), fn=f0.label, inst=f0.qname)
+                continue
             ib = insertion_body(f0)
             if ib is None:
                 ctx.unknown("%s: %s: cannot find the node %s allocates (no allocate_unique result bound to a local)" % (rid, f0.where, nm))
